@@ -135,6 +135,34 @@ fn check_stream(mut s: ByteStream, model: &[u8], cx: &mut Ctx, how: &str) {
                     }
                 }
             }
+            4 => {
+                cx.ops += 1;
+                // the rest as text: on valid UTF-8 the stream is consumed to its end and says so;
+                // on anything else the call fails (and the walk of this stream ends)
+                let mut text = String::new();
+                let r = s.read_to_string(&mut text);
+                match (std::str::from_utf8(&model[pos..]), r) {
+                    (Ok(want), Ok(n)) => {
+                        if n != remaining || text != want {
+                            cx.bad.push(format!("{} {how}: read_to_string at {pos} returned {n} bytes, {remaining} were left (or other text)", cx.what));
+                            return;
+                        }
+                        if s.offset() != model.len() as u64 || s.size_left() != 0 {
+                            cx.bad.push(format!("{} {how}: after read_to_string offset()={} size_left()={} (content of {} bytes)", cx.what, s.offset(), s.size_left(), model.len()));
+                            return;
+                        }
+                        let mut b2 = [0u8; 4];
+                        match s.read(&mut b2) {
+                            Ok(0) => {}
+                            other => cx.bad.push(format!("{} {how}: read after read_to_string returned {other:?}", cx.what)),
+                        }
+                    }
+                    (Err(_), Err(_)) => {}
+                    (Ok(_), Err(e)) => cx.bad.push(format!("{} {how}: read_to_string at {pos} failed on valid UTF-8: {:?}", cx.what, e.kind())),
+                    (Err(_), Ok(n)) => cx.bad.push(format!("{} {how}: read_to_string at {pos} accepted {n} bytes that are not UTF-8", cx.what)),
+                }
+                return;
+            }
             2 => {
                 cx.ops += 1;
                 // asking for more than is left must fail, never deliver foreign bytes
